@@ -618,6 +618,12 @@ func init() {
 						c.Count("user-method-on-nil-pointer-panics") // the user's method panics, not the show code
 						continue
 					}
+					if strings.HasPrefix(verdict, "error:") {
+						// an error of an escaper on the content (an unclosed HTML comment in trusted HTML shown in
+						// Markdown): not a `cannot show` error, and not modelled
+						c.Count("content-error-outside-model")
+						continue
+					}
 					c.Line("show", fmt.Sprint(cd.ctx), b01(cd.url), "0", sd, encVal(sv, nil), verdict)
 					c.Count("show")
 					c.Count("show-" + strings.SplitN(verdict, ":", 2)[0])
@@ -693,6 +699,8 @@ func init() {
 							} else {
 								c.Fail("show-panics", detail(map[string]string{"value": encVal(v, nil), "panic": out}))
 							}
+						case strings.Contains(verdict, "not closed HTML comment"):
+							c.Count("content-error-not-a-cannot-show") // trusted HTML with an unclosed comment, shown in Markdown
 						case verdict != "ok":
 							c.Fail("unexpected-run-error", detail(map[string]string{"value": encVal(v, nil), "error": verdict}))
 						default:
